@@ -210,6 +210,17 @@ func CancelCtxAt(at int64) context.Context {
 	return ctx
 }
 
+// DeadlineCtxAt: like CancelCtxAt, and Deadline() reports (deadline, has).  Harnesses assume
+// has => at <= deadline (a context is done no later than its deadline).
+func DeadlineCtxAt(at int64, deadline int64, has bool) context.Context {
+	if has {
+		ctx, cancel := context.WithDeadline(context.Background(), time.Unix(0, deadline))
+		_ = cancel
+		return ctx
+	}
+	return CancelCtxAt(at)
+}
+
 // CancelCtxEvent (concurrent harnesses): a context the environment may cancel at any moment, or never.
 func CancelCtxEvent(name string) context.Context {
 	ctx, cancel := context.WithCancel(context.Background())
